@@ -37,6 +37,9 @@ type SV struct {
 	Guess bool
 	// File: the value is (or was converted from) an interface with a Seek method: Read/Write on it are positional file operations.
 	File bool
+	// Ext: for a pointer obtained by indexing a slice: one past the last cell index of that slice's
+	// capacity (off + cap*elemsize) - every such cell lies inside the pointed-to object.
+	Ext string
 	// Boxed: payload of an interface value built by MakeInterface in this VC.
 	Boxed *SV
 	// For values built by contract expressions without a Go type.
